@@ -82,10 +82,49 @@ fn isolated_fingerprint(case: &Case, args: &[String]) -> Option<String> {
     std::fs::write(&path, serde_json::to_string(case).ok()?).ok()?;
     let exe = std::env::current_exe().ok()?;
     let repo = arg(args, "--repo").unwrap_or("/repo");
-    let out = std::process::Command::new(exe).arg("run-case").arg(&path).arg("--repo").arg(repo).env_remove("VERIF_ANNOUNCE").stderr(std::process::Stdio::null()).output().ok();
+    use std::os::unix::process::CommandExt;
+    extern "C" {
+        fn prctl(option: i32, arg2: u64, arg3: u64, arg4: u64, arg5: u64) -> i32;
+    }
+    let mut cmd = std::process::Command::new(exe);
+    cmd.arg("run-case").arg(&path).arg("--repo").arg(repo).env_remove("VERIF_ANNOUNCE").stdout(std::process::Stdio::piped()).stderr(std::process::Stdio::null());
+    // SAFETY: prctl(PR_SET_PDEATHSIG, SIGKILL) is async-signal-safe: the child dies with this worker
+    unsafe {
+        cmd.pre_exec(|| {
+            prctl(1, 9, 0, 0, 0);
+            Ok(())
+        });
+    }
+    let spawned = cmd.spawn();
+    let mut child = match spawned {
+        Ok(c) => c,
+        Err(_) => {
+            let _ = std::fs::remove_file(&path);
+            return None;
+        }
+    };
+    // a case takes milliseconds; a child that needs a minute is stuck (the worker's own run of the
+    // case decides about hangs, not this comparison)
+    let t0 = std::time::Instant::now();
+    let status = loop {
+        match child.try_wait() {
+            Ok(Some(st)) => break Some(st),
+            Ok(None) if t0.elapsed().as_secs() >= 60 => {
+                let _ = child.kill();
+                let _ = child.wait();
+                break None;
+            }
+            Ok(None) => std::thread::sleep(std::time::Duration::from_millis(2)),
+            Err(_) => break None,
+        }
+    };
     let _ = std::fs::remove_file(&path);
-    let out = out?;
-    let text = String::from_utf8_lossy(&out.stdout);
+    status?;
+    let mut text = String::new();
+    {
+        use std::io::Read;
+        child.stdout.take()?.read_to_string(&mut text).ok()?;
+    }
     let v: serde_json::Value = serde_json::from_str(text.trim().rsplit('\n').next()?).ok()?;
     v.get("fingerprint").and_then(|f| f.as_str()).map(|s| s.to_string())
 }
